@@ -133,8 +133,13 @@ func AtomFilters(pairs bool) []Step {
 
 // FuncSuffixes are the single trailing-function suffixes.
 func FuncSuffixes() [][]string {
-	return [][]string{{"f"}, {"id"}, {"g"}, {"cnt"}, {"first"}, {"e"}, {"eg"}, {"gre"}, {"fre"}, {"all"}}
+	return [][]string{{"f"}, {"id"}, {"g"}, {"cnt"}, {"first"}, {"e"}, {"eg"}, {"gre"}, {"fre"}, {"all"}, {"nl"}, {"box"}, {"ie"}, {"acc"}}
 }
+
+// coreSuffix: the function suffixes that are also tried after prefixes of two or more steps
+// (a filter function that fails on non-numbers, identity, nil-returning, list and count
+// aggregates, failing ones, the aggregate that returns its argument).
+var coreSuffix = map[string]bool{"f": true, "id": true, "nl": true, "g": true, "cnt": true, "e": true, "eg": true, "all": true, "first": true}
 
 // Ladder is a bounded set of paths: all step sequences over Alpha up to Depth, plus every
 // sequence of at most FuncDepth steps followed by each suffix in Funcs.
@@ -211,6 +216,10 @@ func (u Unit) Paths() []*Path {
 	}
 	if len(u.Prefix) <= u.L.FuncDepth {
 		for _, fs := range u.L.Funcs {
+			// after two or more steps only the core suffixes (every suffix after <=1 step)
+			if len(u.Prefix) >= 2 && len(fs) == 1 && !coreSuffix[fs[0]] {
+				continue
+			}
 			out = append(out, &Path{Root: '$', Steps: u.Prefix, Funcs: fs})
 		}
 	}
